@@ -16,7 +16,8 @@ RULE = ('core: every element-content class x every schema child: [read unset, se
         're-assign an element, set None, read] on both surfaces, compared step by step (exception class, both child views '
         'by name, child values, coarse serialisation verdict / text); every complex-typed class x every declared attribute: '
         'constructor keyword vs dot assignment (same stored dictionary, same text, same exception class for an invalid '
-        'value), dot read of set / unset / undeclared names. halo: seeded mixed sequences (<=10 shortcut operations over '
+        'value), dot read of set / unset / undeclared names, and dot RE-assignment over a held value (the equal value of the other '
+        'number kind, and the same value again) against a constructor keyword on a fresh element. halo: seeded mixed sequences (<=10 shortcut operations over '
         'the child alphabet) replayed on both surfaces. non-trivial = step that changed or read a child/attribute; '
         'distinct by construction (class, child/attribute, step) or distinct sequence')
 ASSUMPTIONS = ['the explicit translation of e.xml_x = v is the one the README documents: replace_child / add_child for an '
@@ -273,6 +274,31 @@ def run_shard(shard, tier, seed):
                         elif sa != sb_ and not ({sa, sb_} <= {'AttributeError', 'XSDWrongAttribute'}):
                             v('keyword-vs-dot-exception', cn, t, {'attr': an, 'value': repr(pv), 'keyword': sa, 'dot': sb_},
                               {'attr': an})
+                # a dot RE-assignment must answer like a constructor keyword on a fresh element, whatever the attribute holds:
+                # probed with the equal value of the other number kind (1 -> 1.0, 2.0 -> 2) and with the same value again
+                if good is not None and at is not None:
+                    for pv in lib.py_candidates(good):
+                        if isinstance(pv, bool) or not isinstance(pv, (int, float)) or pv != pv or abs(pv) > 1e15 or float(pv) != int(pv):
+                            continue
+                        a0 = lib.call(kw_build, pv)
+                        if a0[0] == 'exc':
+                            continue
+                        for twin in ((float(pv) if isinstance(pv, int) else int(pv)), pv):
+                            ra = lib.call(setattr, a0[1], key, twin)
+                            rb = lib.call(kw_build, twin)
+                            evals += 1
+                            c['reassignment_pairs'] += 1
+                            sa = 'ok' if ra[0] == 'ok' else type(ra[1]).__name__
+                            sb_ = 'ok' if rb[0] == 'ok' else type(rb[1]).__name__
+                            if sa != sb_:
+                                v('dot-reassignment-vs-keyword', cn, t, {'attr': an, 'held': repr(pv), 'assigned': repr(twin),
+                                                                        'dot': sa, 'keyword': sb_}, {'attr': an})
+                            elif sa == 'ok' and (dict(a0[1].attributes) != dict(rb[1].attributes) or
+                                                 a0[1].to_string() != rb[1].to_string()):
+                                v('dot-reassignment-vs-keyword-result', cn, t, {'attr': an, 'held': repr(pv),
+                                                                               'assigned': repr(twin)}, {'attr': an})
+                            if ra[0] == 'exc':
+                                break
                 # unset declared attribute reads as None
                 e = lib.call(lambda: cls(val, xsd_check=False) if val is not None else cls(xsd_check=False))
                 if e[0] == 'ok':
